@@ -22,7 +22,7 @@ package main
 // inside a CALLed subroutine; the call flags of every hop (also insufficient or out of range ones), a signer
 // list and the checked argument (a hash, a public key in either encoding, junk). The cell is executed either
 // in a test VM of the chain (any signer list) or as a real signed transaction in a new block. The model gets
-// the STEP SEQUENCE (`x` line: LW / CC / CT / RL / NC / CL / RT / UW ... CW OI) and must reproduce the result
+// the STEP SEQUENCE (`x` line: LW / CC / CT / RL / NC / CL / RT / TR / TH / ET / EF ... CW OI) and must reproduce the result
 // of CheckWitness and what the four getters return, with its frame machine; the oracle judges the result
 // against the declarative specification on the frames the harness derives itself.
 
@@ -384,6 +384,8 @@ type trip struct {
 	mid    int // >= 0: the trip goes through P[mid].call(...)
 	flags  callflag.CallFlag
 	throws bool
+	wrap   int  // script frames: 0 no TRY around the trip, 1 TRY-catch, 2 TRY-catch-finally (a throwing trip has one)
+	inFin  bool // throwing dynamic-script trip: the script calls P.thr inside its own TRY-finally (no catch)
 }
 
 type chainCell struct {
@@ -426,7 +428,20 @@ func (cs *chainState) tripCall(t trip) []any {
 
 func throwScript() []byte { return []byte{byte(opcode.PUSH1), byte(opcode.THROW)} }
 
-func tripDynScript(t trip) []byte {
+func (cs *chainState) tripDynScript(t trip) []byte {
+	if t.throws && t.inFin {
+		// TRY_L -,fin ; P.thr(0) ; DROP ; ENDTRY_L end ; fin: ENDFINALLY ; end: RET
+		in := io.NewBufBinWriter()
+		emit.AppCall(in.BinWriter, cs.proxies[t.proxy].hash, "thr", callflag.All, zero20)
+		emit.Opcodes(in.BinWriter, opcode.DROP)
+		code := in.Bytes()
+		w := io.NewBufBinWriter()
+		emit.Instruction(w.BinWriter, opcode.TRYL, append(le32(0), le32(9+len(code)+5)...))
+		w.WriteBytes(code)
+		emit.Instruction(w.BinWriter, opcode.ENDTRYL, le32(6))
+		emit.Opcodes(w.BinWriter, opcode.ENDFINALLY, opcode.RET)
+		return w.Bytes()
+	}
 	if t.throws {
 		return throwScript()
 	}
@@ -443,7 +458,7 @@ func (cs *chainState) emitTrip(w *io.BinWriter, t trip) {
 	if t.dyn {
 		emit.Array(in.BinWriter)
 		emit.Int(in.BinWriter, int64(t.flags))
-		emit.Bytes(in.BinWriter, tripDynScript(t))
+		emit.Bytes(in.BinWriter, cs.tripDynScript(t))
 		emit.Syscall(in.BinWriter, sysLoadScript)
 	} else {
 		a := cs.tripCall(t)
@@ -451,16 +466,25 @@ func (cs *chainState) emitTrip(w *io.BinWriter, t trip) {
 	}
 	emit.Opcodes(in.BinWriter, opcode.DROP)
 	code := in.Bytes()
-	if !t.throws {
+	switch t.wrap {
+	case 0:
 		w.WriteBytes(code)
-		return
+	case 1:
+		// TRY_L catch,- ; code ; ENDTRY_L end ; catch: DROP ; ENDTRY_L end ; end:
+		emit.Instruction(w, opcode.TRYL, append(le32(9+len(code)+5), le32(0)...))
+		w.WriteBytes(code)
+		emit.Instruction(w, opcode.ENDTRYL, le32(5+1+5))
+		emit.Opcodes(w, opcode.DROP)
+		emit.Instruction(w, opcode.ENDTRYL, le32(5))
+	default:
+		// TRY_L catch,fin ; code ; ENDTRY_L end ; catch: DROP ; ENDTRY_L end ; fin: ENDFINALLY ; end:
+		emit.Instruction(w, opcode.TRYL, append(le32(9+len(code)+5), le32(9+len(code)+5+1+5)...))
+		w.WriteBytes(code)
+		emit.Instruction(w, opcode.ENDTRYL, le32(5+1+5+1))
+		emit.Opcodes(w, opcode.DROP)
+		emit.Instruction(w, opcode.ENDTRYL, le32(5+1))
+		emit.Opcodes(w, opcode.ENDFINALLY)
 	}
-	// TRY_L catch,0 ; code ; ENDTRY_L end ; catch: DROP ; ENDTRY_L +5 ; end:
-	emit.Instruction(w, opcode.TRYL, append(le32(9+len(code)+5), le32(0)...))
-	w.WriteBytes(code)
-	emit.Instruction(w, opcode.ENDTRYL, le32(5+1+5))
-	emit.Opcodes(w, opcode.DROP)
-	emit.Instruction(w, opcode.ENDTRYL, le32(5))
 }
 
 // bodyScript: what the script frame j (entry or dynamic script) executes.
@@ -553,35 +577,49 @@ func (cs *chainState) bodyCall(c *chainCell, j int) (string, []any) {
 
 func (cs *chainState) tripOps(t trip) []string {
 	var ops []string
-	depth := 0
-	if t.dyn {
-		ops = append(ops, fmt.Sprintf("RL %s %d", hTok(hash.Hash160(tripDynScript(t))), int64(t.flags)))
-		depth = 1
-	} else {
-		legs := []struct {
-			p int
-			f callflag.CallFlag
-		}{{t.proxy, t.flags}}
-		if t.mid >= 0 {
-			legs = append([]struct {
-				p int
-				f callflag.CallFlag
-			}{{t.mid, callflag.All}}, legs...)
+	if t.wrap > 0 {
+		ops = append(ops, fmt.Sprintf("TR 1 %d", b01(t.wrap == 2)))
+	}
+	call := func(p int, f callflag.CallFlag) {
+		ops = append(ops, fmt.Sprintf("CC %s %d 0 %d", hTok(cs.proxies[p].hash), int64(f), b01(cs.proxies[p].init)))
+		if cs.proxies[p].init {
+			ops = append(ops, "RT")
 		}
-		for _, l := range legs {
-			ops = append(ops, fmt.Sprintf("CC %s %d 0 %d", hTok(cs.proxies[l.p].hash), int64(l.f), b01(cs.proxies[l.p].init)))
-			if cs.proxies[l.p].init {
-				ops = append(ops, "RT")
-			}
+	}
+	depth := 0
+	switch {
+	case t.dyn:
+		ops = append(ops, fmt.Sprintf("RL %s %d", hTok(hash.Hash160(cs.tripDynScript(t))), int64(t.flags)))
+		depth = 1
+		if t.throws && t.inFin {
+			ops = append(ops, "TR 0 1")
+			call(t.proxy, callflag.All)
+		}
+	default:
+		if t.mid >= 0 {
+			call(t.mid, callflag.All)
 			depth++
 		}
+		call(t.proxy, t.flags)
+		depth++
 	}
 	if t.throws {
-		return append(ops, fmt.Sprintf("UW %d", depth))
+		// THROW: the model finds the handler and the number of contexts to pop from its try stacks
+		ops = append(ops, "TH")
+		if t.dyn && t.inFin {
+			ops = append(ops, "EF") // the dynamic script's finally block ends: the pending exception goes on
+		}
+	} else {
+		ops = append(ops, "CQ "+hx.Hex(zero20)) // the trip's own CheckWitness: its result is dropped, a fault is not
+		for ; depth > 0; depth-- {
+			ops = append(ops, "RT")
+		}
 	}
-	ops = append(ops, "CQ "+hx.Hex(zero20)) // the trip's own CheckWitness: its result is dropped, a fault is not
-	for ; depth > 0; depth-- {
-		ops = append(ops, "RT")
+	switch t.wrap {
+	case 1:
+		ops = append(ops, "ET")
+	case 2:
+		ops = append(ops, "ET", "EF")
 	}
 	return ops
 }
@@ -665,6 +703,12 @@ func (cs *chainState) env(c *chainCell, entry []byte) (*env, string) {
 			} else {
 				ok = need(callflag.ReadOnly, "fault:missingflags") && rng(t.flags)
 			}
+			if ok && t.dyn && t.throws && t.inFin {
+				// inside the dynamic script: System.Contract.Call needs ReadStates|AllowCall of cur & ReadOnly & flags
+				if f := cur & callflag.ReadOnly & t.flags; fault == "" && !f.Has(callflag.ReadOnly) {
+					fault = "fault:missingflags"
+				}
+			}
 			if ok && !t.throws && c.noSigners {
 				fault = "err:nosigners" // the trip's own CheckWitness(0) faults without any signer
 			}
@@ -740,8 +784,13 @@ func (cs *chainState) genTrip(r *prng.R, scriptFrame bool) trip {
 	if scriptFrame {
 		t.dyn = r.Chance(1, 4)
 		t.throws = r.Chance(1, 3)
+		t.wrap = r.Intn(3)
+		if t.throws && t.wrap == 0 {
+			t.wrap = 1 + r.Intn(2)
+		}
 		if t.dyn {
 			t.mid = -1
+			t.inFin = t.throws && r.Bool()
 		}
 	}
 	return t
